@@ -13,11 +13,17 @@ LEVEL = "model_checking"
 def sequential(run, rng, n, steps):
     items = []
     for i in range(n):
-        cfg = {"storage": rng.choice(["file", "ram"]), "compound": rng.random() < 0.7}
+        cfg = {"storage": rng.choice(["file", "ram"]), "compound": rng.random() < 0.7, "reopen": i % 3 == 1}
         seed = rng.randrange(1 << 30)
-        w = ixdriver.IxWorld(**cfg)
+        w = ixdriver.IxWorld(**{k: v for k, v in cfg.items() if k != "history"})
+        w.rich_probe = True
         try:
-            ixdriver.random_history(random.Random(seed), w, steps)
+            if i % 5 == 4:
+                # every fifth history: commits that renumber the documents under a held, refreshed searcher
+                cfg = dict(cfg, history="renumbering")
+                ixdriver.renumbering_history(random.Random(seed), w)
+            else:
+                ixdriver.random_history(random.Random(seed), w, steps)
             t = w.trace()
             run.count(len(t))
             items.append({"trace": t, "writers": w.writers, "readers": w.readers, "cfg": cfg, "seed": seed})
@@ -75,7 +81,7 @@ def concurrent(run, rng, n, commits=None, nreaders=2):
                 while not stop.is_set():
                     if held is None or r.random() < 0.3:
                         name = w.new_reader_name()
-                        ok, s = w.guarded(name, "searcher", w.ix.searcher)
+                        ok, s = w.guarded(name, "searcher", w.reader_handle().searcher)
                         if not ok:
                             continue
                         if held is not None:
